@@ -44,25 +44,38 @@ MANIFEST = dict(
     level_text=("Machine-checked Lean 4 theorems over a statement-by-statement model of client._main and the "
                 "try/finally tail of client.main as a trace-producing program in an exception monad in which every "
                 "boundary call may raise any exception kind at any position (arbitrary fault map, arbitrary "
-                "segmentation of the tunnel bytes, arbitrary liveness answers): the helper is told to start only "
-                "after the sync string was matched and a ROUTES frame was delivered, at most once; READY is sent "
-                "only after STARTED was read back and the helper was seen alive; a wrong/short/missing sync string "
-                "or a dead ssh gives Fatal with no line written to the helper; on every path (every fault "
-                "position x every kind, daemon and foreground) the control pipe is closed and nothing is written "
-                "after; ssh reported dead at iteration i means no runonce at i. Tied to the code on every run by "
-                "executing the real client.main on scripted stubs with exhaustive single-fault injection and "
-                "comparing the real call sequence with the model's trace event by event, plus an oracle on the "
-                "real sequence."),
+                "segmentation of the tunnel bytes, arbitrary helper replies, arbitrary liveness answers, daemon or "
+                "foreground). One trace theorem for every history (C12_trace_rules): no ROUTES..GO dialogue before "
+                "the init string was accepted and a ROUTES frame arrived, at most one dialogue, READY only after "
+                "STARTED was read back with the helper alive; every acceptance was of exactly the regenerated "
+                "literal SYNC_EXPECTED, and the compared string is the tail of the bytes read (C12_accept_only_"
+                "genuine, C12_accept_iff_literal: near-miss spellings are not accepted); after the probe that saw "
+                "ssh gone no further pass, probe, tunnel or helper traffic and no READY, and close follows in that "
+                "pass; exactly one pfile.close() on every path and nothing on the channel after it. Every entry "
+                "into runonce (the only blocking point) is immediately preceded by the liveness probe "
+                "(C12_probe_before_every_pass; loop body and check_ssh_alive pinned to the source text, so a cached "
+                "or rate-limited probe breaks a pin). Dead ssh at start-up ends with an exception and nothing sent "
+                "to the helper. Proofs by invariants carried through the program by induction on its structure and "
+                "a monitor-soundness lemma by induction on the trace. Tied to the code on every run by executing "
+                "the real client.main on scripted stubs with exhaustive single-fault injection and comparing the "
+                "real call sequence with the model's trace event by event, plus oracles on the real sequence, a "
+                "real FirewallClient over a real socketpair, timed histories and near-miss handshake strings."),
     level_note=("Trusted: Lean kernel; axioms propext/Classical.choice/Quot.sound only; the harness and its stubs "
-                "(ssh.connect, the ssh pipe, select, serverproc, os.kill, the helper pipe/process, sdnotify.send, "
-                "daemonize/daemon_cleanup, sys.stdout.flush); pfile.close() releases the descriptor even when "
-                "its flush raises and the helper sees EOF then (CPython io + kernel; probed with a real "
-                "socketpair in the thorough tier); SIGKILL/os._exit/foreground SIGTERM close the descriptor via "
-                "the kernel, not via finally (outside the proof). Composition with C04: PfileClose => helper "
-                "reads EOF => restore is C04's theorem. Observation outside the statement (not judged): tunnel "
-                "EOF with ssh still reported alive does not end the loop (witness C12_tunnel_eof_loop_continues)."),
-    technique="Lean 4 proof (Hoare-style invariants over an exception/trace monad, finally rule) + differential "
-              "execution of the real client.main with exhaustive fault injection",
+                "(ssh.connect, the ssh pipe, select, serverproc, os.kill with zombie semantics, the helper "
+                "pipe/process, sdnotify.send, daemonize/daemon_cleanup, sys.stdout.flush, the fake clock); "
+                "pfile.close() releases the descriptor even when its flush raises and the helper sees EOF then "
+                "(CPython io + kernel; probed with a real socketpair on every run); SIGKILL/os._exit/foreground "
+                "SIGTERM close the descriptor via the kernel, not via finally (outside the proof). Composition with "
+                "C04: PfileClose => helper reads EOF => restore is C04's theorem. Decided by correspondence/oracle "
+                "only (no theorem): the host-list and auto-nets parsing, Mux.fill/callback and runonce internals, "
+                "the real-descriptor EOF, the 2 s scenario-time bound for rules outliving ssh, corrupted tunnel "
+                "bytes releasing the helper. C12_bad_handshake_partial: the link between the monadic start-up "
+                "reads and C07's Handshake.handshake (NUL-skipping structure) is not proved; what is proved is that "
+                "the accepted string is the last 12 bytes read and equals the literal. Observation outside the "
+                "statement (not judged): tunnel EOF with ssh still reported alive does not end the loop (witness "
+                "C12_tunnel_eof_loop_continues)."),
+    technique="Lean 4 proof (Hoare-style invariants over an exception/trace monad, finally rule, trace monitor "
+              "soundness) + differential execution of the real client.main with exhaustive fault injection",
 )
 DRIVER_TARGETS = ['SshuttleModel.Code.ClientMain', 'SshuttleModel.Spec.ClientTrace']
 ASSUMPTIONS = [
